@@ -528,3 +528,164 @@ def run(P, rep, tier):
                    ('the coded %s is range-tested (%s) before the reader is positioned behind the tile' % (sz, callee_name(doms[0]['e']) if doms else 'comparison')) if ok else
                    ('the reader is re-positioned at buf + %s (and prefetches from there) before the coded size has been validated: a size pointing past the OBU makes the decoder read at a bitstream-chosen distance behind its input' % sz))
     rep.floor('C10.TILESIZE', 2)
+
+    run_header_guards(P, rep)
+
+
+# ---------------- header-level guards that must be real control flow, not assertions (a release build defines NDEBUG)
+#  ASSERTBOUND  an assertion that bounds a value read from the bit stream from above is matched by a real test of the same quantity with
+#               an error exit (in the parsing function or in a caller): otherwise the bound does not exist in the shipped decoder
+#  ASSERTEXIT   a branch of the header parser that ends in assert(0) returns an error immediately after it: "detected, then carried on"
+#               is how a corrupt header reaches the code that trusts it
+#  SEQFIRST     in the OBU dispatcher every call that parses frame-level syntax is guarded by a test of the flag the sequence-header case
+#               raises, with an error exit
+#  SHOWEXIST    between the frame-header call and the jump into the tile group (OBU_FRAME) there is a test of show_existing_frame with an
+#               error exit
+import re as _re
+
+
+def _fn_span(f):
+    ls = [ev['l'] for ev in f.events(reachable=False) if ev.get('l')]
+    return (min(ls), max(ls)) if ls else (0, 0)
+
+
+def _host(fns, spans, line):
+    c = [f for f in fns if spans[f.key][0] - 3 <= line <= spans[f.key][1] + 3]
+    return min(c, key=lambda f: spans[f.key][1] - spans[f.key][0]) if c else None
+
+
+def _error_return_under(f, pred):
+    """an `if` whose condition satisfies pred and under which (directly) a non-zero return or goto sits"""
+    for ev in f.events(('ret',), reachable=False):
+        e = ev.get('e')
+        for kind, cond, line in f.ctl_chain(ev)[:1]:
+            if kind == 'if' and cond is not None and pred(cond):
+                v = strip(e) if e is not None else None
+                if v is None or not (v[0] == 'l' and v[1] == 0):
+                    return ev
+    return None
+
+
+def run_header_guards(P, rep):
+    BITS = 'dec_get_bits'
+    files = [fl for fl in P.macros if '/Decoder/Codec/' in fl and fl.endswith('.c')]
+    dec_fns = [f for f in P.fns if f.lib == 'Decoder' and not f.nocfg]
+    hdr_entry = P.fn('read_frame_header_obu')
+    hdr = set(g for g in P.reachable_from([hdr_entry]) if g.lib == 'Decoder' and not g.nocfg) | {hdr_entry}
+    by_file = {}
+    for f in dec_fns:
+        by_file.setdefault(f.file, []).append(f)
+    spans = {f.key: _fn_span(f) for f in dec_fns}
+    nb = ne = 0
+    for fl in files:
+        fns = by_file.get(fl, [])
+        for (l, c, n, a) in P.macros[fl]:
+            if n != 'assert' or not a:
+                continue
+            txt = a[0].strip()
+            f = _host(fns, spans, l)
+            if f is None or f not in hdr:
+                continue
+            if txt == '0':
+                ne += 1
+                ok = any(l <= ev.get('l', 0) <= l + 2 for ev in f.events(('ret',), reachable=False))
+                rep.ob('C10.ASSERTEXIT', '%s@%d' % (f.name, l), ok, '%s:%d' % (fl.replace('/repo/', ''), l),
+                       'assert(0) is followed by an error return' if ok else
+                       ('%s detects a stream error at line %d and only asserts: a release build carries on with the header it has just found to be corrupt' % (f.name, l)))
+                continue
+            m = _re.match(r'^\(?\s*\(?([A-Za-z_][\w\.\->\[\] ]*?)\)?\s*(<=|<)\s*(.+?)\)?$', txt)
+            if not m:
+                continue
+            x = m.group(1).strip()
+            xid = _re.findall(r'[A-Za-z_]\w*', x)[-1]
+            derived = False
+            for ev in f.events(('decl', 'st'), reachable=False):
+                e = ev.get('e')
+                if e is None:
+                    continue
+                rhs = e if ev['k'] == 'decl' else (e[3] if e[0] == 'a' and len(e) > 3 else None)
+                if rhs is None or not any(y[0] == 'c' and (callee_name(y) or '').startswith(BITS) for y in subexprs(rhs)):
+                    continue
+                name = ev['n'] if ev['k'] == 'decl' else (last_field(strip(e[2])) or pstr(strip(e[2])))
+                if name.split('.')[-1] == xid:
+                    derived = True
+            if not derived:
+                continue
+            nb += 1
+
+            def _tests(cond):
+                for y in subexprs(cond):
+                    if y[0] == 'b' and y[1] in ('>', '>=', '<', '<='):
+                        for side in (y[2], y[3]):
+                            sd = strip(side)
+                            nm = (last_field(sd) or (sd[1] if sd is not None and sd[0] == 'v' else '')) if sd is not None else ''
+                            if nm.split('.')[-1] == xid:
+                                return True
+                return False
+            def _tested_after(g, after_line, depth=0, at=None):
+                """a real test with an error exit follows in g (after the given line, in a control context that encloses the given
+                event), or follows every call of g in its callers"""
+                encl = set((k, l2) for k, c, l2 in g.ctl_chain(at)) if at is not None else None
+                for rv in g.events(('ret',), reachable=False):
+                    if rv['l'] <= after_line:
+                        continue
+                    if encl is not None and not all((k, l2) in encl for k, c, l2 in g.ctl_chain(rv)[1:]):
+                        continue                # the test sits in another branch than the call
+                    e2 = rv.get('e')
+                    v2 = strip(e2) if e2 is not None else None
+                    if v2 is not None and v2[0] == 'l' and v2[1] == 0:
+                        continue
+                    if any(k == 'if' and c is not None and _tests(c) for k, c, l2 in g.ctl_chain(rv)[:1]):
+                        return g
+                if depth >= 2:
+                    return None
+                sites = [(cf, cv) for cf, cv in P.call_sites(g.name) if cf.lib == 'Decoder' and not cf.nocfg]
+                if not sites:
+                    return None
+                got = [_tested_after(cf, cv['l'], depth + 1, cv) for cf, cv in sites]
+                return got[0] if all(x is not None for x in got) else None
+            g = _tested_after(f, l - 1)
+            real = g
+            rep.ob('C10.ASSERTBOUND', '%s/%s@%d' % (f.name, xid, l), real is not None, '%s:%d' % (fl.replace('/repo/', ''), l),
+                   ('%s is read from the bit stream; its bound (%s) is also enforced by a real test with an error exit in %s (on every call path)' % (xid, txt[:50], g.name)) if real is not None else
+                   ('%s is read from the bit stream in %s and bounded only by assert(%s): with NDEBUG nothing enforces it, and the value goes on to size or index decoder storage' % (xid, f.name, txt[:60])))
+    if ne < 1 or nb < 2:
+        raise AnalysisBroken('header assertions not found (%d assert(0), %d bounds on bit-stream values)' % (ne, nb))
+    # SEQFIRST / SHOWEXIST on the dispatcher
+    disp = P.fn('decode_multiple_obu')
+    seq_call = [ev for ev, n in disp.calls('read_sequence_header_obu')]
+    if not seq_call:
+        raise AnalysisBroken('decode_multiple_obu no longer calls read_sequence_header_obu')
+    flags = set()
+    for ev in disp.events(('st',)):
+        e = ev['e']
+        if e[0] == 'a' and e[1] == '=' and strip(e[3]) is not None and strip(e[3])[0] == 'l' and strip(e[3])[1] == 1 and \
+           any(disp.ev_dominates(sc, ev) and sc['l'] < ev['l'] <= sc['l'] + 12 for sc in seq_call):
+            lf = last_field(strip(e[2]))
+            if lf:
+                flags.add(lf)
+    if not flags:
+        raise AnalysisBroken('no flag is raised after the sequence header has been accepted')
+    for cn in ('read_frame_header_obu', 'read_tile_group_obu'):
+        for ev, n in disp.calls(cn):
+            def _reads_flag(cond):
+                return any(y[0] == 'm' and y[1] in flags for y in subexprs(cond))
+            guards = [rv for rv in disp.events(('ret',)) if rv['l'] < ev['l'] and any(k == 'if' and c is not None and _reads_flag(c) for k, c, l in disp.ctl_chain(rv)[:1]) and
+                      disp.ev_dominates(next(iter([x for x in disp.events() if x['l'] == disp.ctl_chain(rv)[0][2]]), rv), ev)]
+            simple = [rv for rv in disp.events(('ret',)) if rv['l'] < ev['l'] and ev['l'] - rv['l'] < 40 and any(k == 'if' and c is not None and _reads_flag(c) for k, c, l in disp.ctl_chain(rv)[:1])]
+            ok = bool(simple)
+            rep.ob('C10.SEQFIRST', '%s@%d' % (cn, ev['l']), ok, disp.loc(ev),
+                   ('%s is reached only after a test of %s with an error exit' % (cn, sorted(fl.split('.')[1] for fl in flags))) if ok else
+                   ('decode_multiple_obu calls %s without having tested %s: a frame OBU that arrives before any sequence header was accepted is parsed with the picture manager and the sequence parameters unset' % (cn, sorted(fl.split('.')[1] for fl in flags))))
+    rep.floor('C10.SEQFIRST', 2)
+    fh = [ev for ev, n in disp.calls('read_frame_header_obu')]
+    tg = [ev for ev, n in disp.calls('read_tile_group_obu')]
+    gotos = [ev for ev in disp.events(reachable=False) if ev['k'] in ('goto', 'jmp')]
+    between = [rv for rv in disp.events(('ret',)) if fh and tg and fh[0]['l'] < rv['l'] < tg[0]['l'] and
+               any(k == 'if' and c is not None and any(y[0] == 'm' and y[1].endswith('.show_existing_frame') for y in subexprs(c)) for k, c, l in disp.ctl_chain(rv)[:1])]
+    rep.ob('C10.SHOWEXIST', 'decode_multiple_obu/frame-obu', bool(between), disp.loc(fh[0]) if fh else disp.loc(),
+           'a frame header that says show_existing_frame ends the OBU_FRAME case with an error before the tile group is parsed' if between else
+           'after read_frame_header_obu the OBU_FRAME case falls through to the tile group without looking at show_existing_frame: such a header leaves the frame state of the previous picture in place and the tile data is parsed against it')
+    rep.floor('C10.SHOWEXIST', 1)
+    rep.floor('C10.ASSERTBOUND', 2)
+    rep.floor('C10.ASSERTEXIT', 1)
